@@ -243,13 +243,34 @@ def core_docs(tier):
               ((ki["str-lookup(3 entries)"], ki["f32be"]), 1), ((ki["u3+poly(2x)"], ki["bin-dyn(calibrated ref, x8)"]), 2)]
     for c in combos:
         out.append(("palette", c))
+    out.append(("collide", 0))
+    out.append(("collide", 3))
     return out
+
+
+def collide_doc(variant: int):
+    """Names shared ACROSS kinds (a parameter type, a parameter and a container may all be called STATUS: the three sets are separate
+    name spaces), in both document orders and with the shared name also used for a nested container."""
+    from mc.spec import Cmp, Container, Doc, IntEnc, Param, PType, header_entries, header_params, header_ptypes
+    pts = header_ptypes() + (PType("STATUS", "Integer", IntEnc(8)), PType("NEST", "Integer", IntEnc(4)))
+    prs = header_params() + (Param("STATUS", "STATUS"), Param("NEST", "NEST"), Param("CCSDSPacket", "NEST"), Param("TAIL", "STATUS"))
+    conts = [Container("CCSDSPacket", header_entries(), abstract=True),
+             Container("STATUS", (("p", "STATUS"), ("c", "NEST"), ("p", "TAIL")), base="CCSDSPacket", criteria=(Cmp("PKT_APID", "==", "1"),)),
+             Container("NEST", (("p", "NEST"), ("p", "CCSDSPacket"))),
+             Container("TAIL", (("c", "NEST"), ("p", "STATUS")), base="CCSDSPacket", criteria=(Cmp("PKT_APID", "==", "2"),))]
+    if variant & 1:
+        conts = list(reversed(conts))
+    if variant & 2:
+        conts = conts[1:] + conts[:1]
+    return Doc(pts, prs, tuple(conts))
 
 
 def make_doc(item):
     fam, x = item
     if fam == "palette":
         return c01.compose(tuple(x[0]), x[1])
+    if fam == "collide":
+        return collide_doc(x)
     return c05.make_doc(**x)
 
 
@@ -336,7 +357,7 @@ def run(ctx):
         specs = specs[::2]
     else:
         specs = specs[::3]
-    items = [("trees", s) for s in specs] + [("palette", ((a, b), (a + b) % 3 + 1)) for a in range(len(c01.pal())) for b in range(0, len(c01.pal()), 5)]
+    items = [("collide", v) for v in range(4)] + [("trees", s) for s in specs] + [("palette", ((a, b), (a + b) % 3 + 1)) for a in range(len(c01.pal())) for b in range(0, len(c01.pal()), 5)]
     tally.merge(fan_out(_task_consistency, [{"items": ch} for ch in chunked(items, 128)], jobs=ctx.jobs, seed=ctx.seed))
     tally.merge(fan_out(_task_bundled, [{"item": it} for it in BUNDLED], jobs=ctx.jobs, mem_gib=None))
     coverage = {
@@ -382,6 +403,8 @@ def _fix_item(item):
         x = dict(x)
         x["parents"] = tuple(x["parents"])
         x["crits"] = tuple(x["crits"])
+        return (fam, x)
+    if fam == "collide":
         return (fam, x)
     return (fam, (tuple(x[0]), x[1]))
 
